@@ -185,6 +185,65 @@ func (e *env) decode(b []byte) *big.Int {
 	return dl(p)
 }
 
+// fingerprint of values an operation receives and must leave unchanged:
+// points, scalars, byte strings and slices of them
+func fp(objs ...interface{}) string {
+	var sb strings.Builder
+	var one func(o interface{})
+	one = func(o interface{}) {
+		switch v := o.(type) {
+		case nil:
+			sb.WriteString("nil;")
+		case []byte:
+			sb.WriteString(vh.Hex(v) + ";")
+		case [][]byte:
+			for _, x := range v {
+				one(x)
+			}
+			sb.WriteString("|")
+		case kyber.Point:
+			if v == nil {
+				sb.WriteString("nil;")
+				return
+			}
+			b, err := v.MarshalBinary()
+			sb.WriteString(vh.Hex(b) + fmt.Sprint(err != nil) + ";")
+		case kyber.Scalar:
+			if v == nil {
+				sb.WriteString("nil;")
+				return
+			}
+			b, err := v.MarshalBinary()
+			sb.WriteString(vh.Hex(b) + fmt.Sprint(err != nil) + ";")
+		case []kyber.Point:
+			for _, x := range v {
+				one(x)
+			}
+			sb.WriteString("|")
+		case []kyber.Scalar:
+			for _, x := range v {
+				one(x)
+			}
+			sb.WriteString("|")
+		default:
+			sb.WriteString(fmt.Sprint(v) + ";")
+		}
+	}
+	for _, o := range objs {
+		one(o)
+	}
+	return sb.String()
+}
+
+// unchanged runs f and reports key if the fingerprint of objs() differs afterwards
+func (c *ctx) unchanged(key, what string, replay interface{}, objs func() string, f func()) {
+	before := objs()
+	f()
+	if objs() != before {
+		c.rep.Fail(key, what+" changes a value it only reads (keys, coefficients, commitments, signatures or message passed in)", replay)
+	}
+}
+
 type ctx struct {
 	rep    *vh.Report
 	cf     *vh.CaseFile
@@ -306,6 +365,19 @@ func blsCase(c *ctx, e *env, r *vh.Rng) {
 	}
 	var qs []string
 	nacc := 0
+	blsState := func() string {
+		var xs []kyber.Scalar
+		var Xs []kyber.Point
+		var bs [][]byte
+		for _, k := range keys {
+			xs, Xs = append(xs, k.x), append(Xs, k.X)
+		}
+		for _, s := range pool {
+			bs = append(bs, s.b)
+		}
+		return fp(xs, Xs, bs, msgs)
+	}
+	blsBefore := blsState()
 	for _, s := range pool {
 		for vk := range keys {
 			for vm := range msgs {
@@ -340,6 +412,9 @@ func blsCase(c *ctx, e *env, r *vh.Rng) {
 				}
 			}
 		}
+	}
+	if blsState() != blsBefore {
+		c.rep.Fail("bls/mutates-input", "Sign / Verify change a key, signature or message they only read", map[string]interface{}{"env": e.name})
 	}
 	c.rep.Dist("bls:" + e.name)
 	c.rep.DistN("bls:verify-calls", len(qs))
@@ -379,22 +454,43 @@ func (p part) coq() string {
 
 // one Recover scenario: the honest partials of the indices in subset (in the
 // given order) with junk injected
-func tblsCase(c *ctx, e *env, r *vh.Rng, t, n int, subset []int, junk int, forceDup bool) {
-	var poly *share.PriPoly
-	var coefD []*big.Int
+// a sharing that is reused by several Recover scenarios: the same PriPoly,
+// PubPoly and share objects serve all of them
+type polyCtx struct {
+	poly  *share.PriPoly
+	coefD []*big.Int
+	pub   *share.PubPoly
+}
+
+func newPolyCtx(e *env, r *vh.Rng, t int) *polyCtx {
+	pc := &polyCtx{}
 	if e.dlog {
-		poly = share.NewPriPoly(e.keyG, uint32(t), nil, stream(r))
+		pc.poly = share.NewPriPoly(e.keyG, uint32(t), nil, stream(r))
 	} else {
 		var cs []kyber.Scalar
 		for i := 0; i < t; i++ {
 			cs = append(cs, scalarFromBig(e.keyG, rand60(r)))
 		}
-		poly = share.CoefficientsToPriPoly(e.keyG, cs)
+		pc.poly = share.CoefficientsToPriPoly(e.keyG, cs)
 	}
-	for _, cf := range poly.Coefficients() {
-		coefD = append(coefD, modq(vh.ScalarVal(cf)))
+	for _, cf := range pc.poly.Coefficients() {
+		pc.coefD = append(pc.coefD, modq(vh.ScalarVal(cf)))
 	}
-	pub := poly.Commit(e.keyG.Point().Base())
+	pc.pub = pc.poly.Commit(e.keyG.Point().Base())
+	return pc
+}
+
+func (pc *polyCtx) state() string {
+	_, commits := pc.pub.Info()
+	return fp(commits, pc.poly.Coefficients())
+}
+
+func tblsCase(c *ctx, e *env, r *vh.Rng, pc *polyCtx, t, n int, subset []int, junk int, forceDup bool) {
+	if pc == nil {
+		pc = newPolyCtx(e, r, t)
+	}
+	poly, coefD, pub := pc.poly, pc.coefD, pc.pub
+	polyBefore := pc.state()
 	msg := append(r.Bytes(r.Pick([]int{0, 7, 40})), 1)
 	msg2 := append(r.Bytes(r.Pick([]int{0, 7, 40})), 2)
 	h, h2 := e.hdl(r, msg), e.hdl(r, msg2)
@@ -523,9 +619,33 @@ func tblsCase(c *ctx, e *env, r *vh.Rng, t, n int, subset []int, junk int, force
 	}
 	var rec []byte
 	var rerr error
-	pn, pm := vh.Try(func() { rec, rerr = e.tbls.Recover(pub, msg, sigs, uint32(t), uint32(n)) })
 	replay := map[string]interface{}{"env": e.name, "t": t, "n": n, "partials": mapS(sigs, vh.Hex), "kinds": kinds,
 		"distinct_valid": len(distinct), "coefficients": mapS(coefD, (*big.Int).String), "msg": vh.Hex(msg)}
+	var pn bool
+	var pm string
+	msgCopy := append([]byte{}, msg...)
+	c.unchanged("tbls.Recover/mutates-input", "Recover", replay, func() string { return fp(sigs, msg, msgCopy) + pc.state() }, func() {
+		pn, pm = vh.Try(func() { rec, rerr = e.tbls.Recover(pub, msg, sigs, uint32(t), uint32(n)) })
+	})
+	if pc.state() != polyBefore {
+		c.rep.Fail("tbls/mutates-sharing", "Sign / VerifyPartial / Recover change the sharing polynomial or its commitments", replay)
+	}
+	// the same objects again, partials in another order: same outcome (the
+	// property holds for every order, and for every use of the same PubPoly)
+	{
+		perm := shuffle(r, subsets(len(sigs), len(sigs))[0])
+		var sigs2 [][]byte
+		for _, k := range perm {
+			sigs2 = append(sigs2, sigs[k])
+		}
+		var rec2 []byte
+		var rerr2 error
+		pn2, _ := vh.Try(func() { rec2, rerr2 = e.tbls.Recover(pub, msg, sigs2, uint32(t), uint32(n)) })
+		if pn2 != pn || (rerr2 == nil) != (rerr == nil) || !bytes.Equal(rec, rec2) {
+			replay["second_order"] = perm
+			c.rep.Fail("tbls.Recover/depends-on-order-or-earlier-calls", "a second Recover over the same partials in another order gives another result", replay)
+		}
+	}
 	status, value, vrec := 0, bigOf(-1), false
 	enough := len(distinct) >= t
 	switch {
@@ -607,15 +727,16 @@ func shuffle(r *vh.Rng, xs []int) []int {
 func tblsAll(c *ctx, e *env, r *vh.Rng, maxN, allSubsetsUpTo int, extra int) {
 	for n := 2; n <= maxN; n++ {
 		for t := 2; t <= n; t++ {
+			pc := newPolyCtx(e, r.Fork(), t) // one sharing serves all scenarios of this (t,n)
 			if n <= allSubsetsUpTo {
 				for _, s := range subsets(n, t) {
-					tblsCase(c, e, r.Fork(), t, n, shuffle(r, s), r.Intn(4), false)
+					tblsCase(c, e, r.Fork(), pc, t, n, shuffle(r, s), r.Intn(4), false)
 				}
 			}
 			for k := 0; k < extra; k++ {
 				// any number of honest partials (below, at, above t), random order, junk
 				s := shuffle(r, subsets(n, n)[0])[:r.Intn(n+1)]
-				tblsCase(c, e, r.Fork(), t, n, s, r.Intn(6), false)
+				tblsCase(c, e, r.Fork(), pc, t, n, s, r.Intn(6), false)
 			}
 		}
 	}
@@ -629,7 +750,7 @@ func tblsDup(c *ctx, e *env, r *vh.Rng) {
 		n := 3 + r.Intn(3)
 		t := 2 + r.Intn(n-1)
 		s := shuffle(r, subsets(n, n)[0])[:t]
-		tblsCase(c, e, r.Fork(), t, n, s, 0, true)
+		tblsCase(c, e, r.Fork(), nil, t, n, s, 0, true)
 	}
 }
 
@@ -948,6 +1069,224 @@ func bdnCase(c *ctx, e *env, r *vh.Rng, n int, ownMode int, kinds []int) {
 	c.emit(fmt.Sprintf("CBdn %d %s %s %s %s %s %s %s %s %s %s %s", c.id, cb(e.g1), cb(e.dlog), czl(pubD), czl(coefD), copt(ownD),
 		vh.CoqList(mapS(ops, bop.coq)), vh.CoqList(mapS(sigD, copt)), cz(h), cz(h2), vh.CoqBytes(other), vh.CoqList(obs)),
 		replay, fmt.Sprintf("bdn %s n=%d own=%d %v", e.name, n, ownMode, mapS(ops, bop.String)), len(ops) > 0)
+}
+
+// A BDN session: mask objects that share what NewMask precomputed (a base
+// mask and its clones, as the NewMask documentation recommends, or several
+// NewMask results over the same key slice) are used for many interleaved
+// SetBit / SetMask / Merge / Clone / AggregatePublicKeys / AggregateSignatures
+// / Verify calls; every call is observed and compared with the model, in which
+// aggregation is a function of the mask value and changes nothing.
+func bdnSession(c *ctx, e *env, r *vh.Rng, n, nsteps int) {
+	type kp struct {
+		x  kyber.Scalar
+		X  kyber.Point
+		xd *big.Int
+	}
+	var keys []kp
+	var pubs []kyber.Point
+	var pubD []*big.Int
+	for i := 0; i < n; i++ {
+		x, X, xd := e.newKey(r)
+		keys = append(keys, kp{x, X, xd})
+		pubs = append(pubs, X)
+		pubD = append(pubD, xd)
+	}
+	coefS, err := bdn.VerifHashPointToR(e.keyG, pubs)
+	if err != nil {
+		panic(err)
+	}
+	var coefD []*big.Int
+	for _, s := range coefS {
+		coefD = append(coefD, vh.ScalarVal(s))
+	}
+	msg := append(r.Bytes(r.Pick([]int{0, 9, 33})), 1)
+	h := e.hdl(r, msg)
+	// every signer signs once; the same byte slices are handed to every aggregation
+	signed := make([][]byte, n)
+	signedD := make([]*big.Int, n)
+	for i := range keys {
+		sb, err := e.bls.Sign(keys[i].x, msg)
+		if err != nil {
+			panic(err)
+		}
+		signed[i], signedD[i] = sb, mulq(keys[i].xd, h)
+		if e.dlog {
+			signedD[i] = e.decode(sb)
+		}
+	}
+	var objs []*bdn.Mask
+	var steps, obs, hist []string
+	replay := map[string]interface{}{"type": "bdn-session", "env": e.name, "n": n, "secrets": mapS(pubD, (*big.Int).String), "msg": vh.Hex(msg)}
+	state := func() string {
+		var sb strings.Builder
+		for _, m := range objs {
+			sb.WriteString(fp(bdn.VerifCoefs(m), bdn.VerifTerms(m), m.Publics()))
+		}
+		sb.WriteString(fp(pubs, signed, msg))
+		return sb.String()
+	}
+	newMask := func(mode int) {
+		var own kyber.Point
+		var ownD *big.Int
+		switch mode {
+		case 1:
+			k := r.Intn(n)
+			own, ownD = pubs[k].Clone(), pubD[k]
+		case 2:
+			_, own, ownD = e.newKey(r)
+		}
+		steps = append(steps, "SNew "+copt(ownD))
+		hist = append(hist, fmt.Sprintf("NewMask(own mode %d)", mode))
+		var m *bdn.Mask
+		var err error
+		c.unchanged("bdn.NewMask/mutates-input", "NewMask", replay, state, func() { m, err = bdn.NewMask(e.keyG, pubs, own) })
+		if err != nil {
+			obs = append(obs, "[1]")
+			if mode != 2 {
+				c.rep.Fail("bdn.NewMask/error", err.Error(), replay)
+			}
+			return
+		}
+		obs = append(obs, "[0]")
+		objs = append(objs, m)
+	}
+	setOp := func(k int, o bop) {
+		steps = append(steps, fmt.Sprintf("SMask %d (%s)", k, o.coq()))
+		hist = append(hist, fmt.Sprintf("#%d.%s", k, o.String()))
+		var err error
+		switch o.kind {
+		case 0:
+			err = objs[k].SetBit(o.i, o.b)
+		case 1:
+			err = objs[k].SetMask(append([]byte{}, o.bytes...))
+		case 2:
+			err = objs[k].Merge(append([]byte{}, o.bytes...))
+		}
+		obs = append(obs, "["+cb01(err != nil)+"]")
+	}
+	naggs := 0
+	agg := func(k int) {
+		m := objs[k]
+		if !e.dlog && m.CountEnabled() == 0 { // keep identity points out of the real encodings
+			setOp(k, bop{kind: 0, i: r.Intn(n), b: true})
+		}
+		final := m.Mask()
+		var sigs [][]byte
+		var sigD []*big.Int
+		for i := 0; i < n; i++ {
+			if final[i/8]&(1<<uint(i%8)) != 0 {
+				sigs, sigD = append(sigs, signed[i]), append(sigD, signedD[i])
+			}
+		}
+		variant := 0
+		if r.Chance(12) {
+			switch r.Intn(2) {
+			case 0:
+				if len(sigs) > 0 {
+					variant = 1
+					sigs, sigD = sigs[:len(sigs)-1], sigD[:len(sigD)-1]
+				}
+			case 1:
+				variant = 2
+				sigs, sigD = append(sigs, signed[r.Intn(n)]), append(sigD, bigOf(7))
+				if e.dlog {
+					sigD[len(sigD)-1] = e.decode(sigs[len(sigs)-1])
+				}
+			}
+		}
+		steps = append(steps, fmt.Sprintf("SAgg %d %s", k, vh.CoqList(mapS(sigD, copt))))
+		hist = append(hist, fmt.Sprintf("#%d.Aggregate(mask %s, sigs variant %d)", k, vh.Hex(final), variant))
+		replay["history"] = hist
+		var aggPub, aggSig kyber.Point
+		var errP, errS error
+		var pP, pS bool
+		var mP, mS string
+		c.unchanged("bdn.Aggregate/changes-precomputed-state", "AggregatePublicKeys / AggregateSignatures", replay, state, func() {
+			doP := func() { pP, mP = vh.Try(func() { aggPub, errP = e.bdn.AggregatePublicKeys(m) }) }
+			doS := func() { pS, mS = vh.Try(func() { aggSig, errS = e.bdn.AggregateSignatures(sigs, m) }) }
+			if r.Bool() {
+				doP()
+				doS()
+			} else {
+				doS()
+				doP()
+			}
+		})
+		code := func(p bool, err error) int {
+			if p {
+				return 2
+			}
+			if err != nil {
+				return 1
+			}
+			return 0
+		}
+		cP, cS := code(pP, errP), code(pS, errS)
+		exd := func(p kyber.Point, cd int) string {
+			if cd == 0 && e.dlog {
+				return cz(dl(p))
+			}
+			return "(-1)"
+		}
+		verdict := "(-1)"
+		if pP || pS {
+			c.rep.Fail("bdn.Aggregate/panics", "aggregation over a reused mask panics: "+mP+mS, replay)
+		}
+		if variant == 0 && (cP == 1 || cS == 1) {
+			c.rep.Fail("bdn.Aggregate/honest-error", fmt.Sprintf("aggregation of the honest signatures fails: %v %v", errP, errS), replay)
+		}
+		if variant != 0 && cS == 0 {
+			c.rep.Fail("bdn.AggregateSignatures/wrong-signature-list-accepted", "a signature list that does not match the mask is aggregated", replay)
+		}
+		if cP == 0 && cS == 0 {
+			sb, err := aggSig.MarshalBinary()
+			if err != nil {
+				panic(err)
+			}
+			ok := e.bdn.Verify(aggPub, msg, sb) == nil
+			verdict = cb01(ok)
+			naggs++
+			if variant == 0 && !ok {
+				c.rep.Fail("bdn.Verify/same-mask-rejected", fmt.Sprintf("aggregation no. %d of a session over mask objects sharing one NewMask: the aggregate signature does not verify under the aggregate key of its own mask", naggs), replay)
+			}
+		}
+		o := []string{ci(cP), exd(aggPub, cP), ci(cS), exd(aggSig, cS), verdict}
+		for _, b := range m.Mask() {
+			o = append(o, ci(int(b)))
+		}
+		o = append(o, ci(m.CountEnabled()))
+		obs = append(obs, vh.CoqList(o))
+	}
+	newMask(r.Intn(2))
+	if len(objs) == 0 {
+		return
+	}
+	for len(steps) < nsteps {
+		k := r.Intn(len(objs))
+		switch x := r.Intn(100); {
+		case x < 6:
+			newMask(r.Intn(3))
+		case x < 40:
+			setOp(k, randBop(r, r.Intn(3), n))
+		case x < 55:
+			steps = append(steps, fmt.Sprintf("SClone %d", k))
+			hist = append(hist, fmt.Sprintf("#%d.Clone -> #%d", k, len(objs)))
+			objs = append(objs, objs[k].Clone())
+			obs = append(obs, "[0]")
+		default:
+			agg(k)
+		}
+	}
+	replay["history"] = hist
+	c.rep.Dist("bdn-session:" + e.name)
+	c.rep.DistN("bdn-session:aggregations-verified", naggs)
+	if c.id%25 == 0 {
+		c.rep.Sample(replay)
+	}
+	c.emit(fmt.Sprintf("CBdnS %d %s %s %s %s %s %s %s", c.id, cb(e.g1), cb(e.dlog), czl(pubD), czl(coefD), cz(h),
+		vh.CoqList(mapS(steps, func(s string) string { return "(" + s + ")" })), vh.CoqList(obs)),
+		replay, fmt.Sprintf("bdn-session %s n=%d %v", e.name, n, hist), naggs > 1)
 }
 
 func cb01(b bool) string {
@@ -1294,12 +1633,19 @@ func cosiVerifyCase(c *ctx, r *vh.Rng, real bool) {
 	replay["sig"] = vh.Hex(tsig)
 	replay["policy"] = fmt.Sprintf("%+v", pol)
 	var verr error
-	pn, pm := vh.Try(func() { verr = cosi.Verify(suite, pubs, vmsg, tsig, pol.mk()) })
+	var pn bool
+	var pm string
+	c.unchanged("cosi.Verify/mutates-input", "cosi.Verify", replay, func() string { return fp(pubs, tsig, vmsg) }, func() {
+		pn, pm = vh.Try(func() { verr = cosi.Verify(suite, pubs, vmsg, tsig, pol.mk()) })
+	})
 	if pn {
 		c.rep.Fail("cosi.Verify/panics", pm, replay)
 		return
 	}
 	acc := verr == nil
+	if again := cosi.Verify(suite, pubs, vmsg, tsig, pol.mk()); (again == nil) != acc {
+		c.rep.Fail("cosi.Verify/not-repeatable", "verifying the same collective signature twice gives two verdicts", replay)
+	}
 	switch {
 	case !semantic && pol.ok(cnt, n) && !acc:
 		c.rep.Fail("cosi.Verify/honest-rejected", "an honestly formed collective signature meeting the policy is rejected: "+verr.Error(), replay)
@@ -1360,7 +1706,7 @@ func (s *edSuite) RandomStream() cipher.Stream { return s.rnd }
 func main() {
 	o := vh.ParseFlags()
 	rep := vh.NewReport("C09", o.Seed, o.Tier)
-	rep.Rule = "scenarios over the transparent dlog pairing suite (exact values) and the 8 real (suite, signature group) combinations (verdicts, byte equalities): BLS sign/verify matrices over keys x messages x honest/tampered/garbage signatures; threshold BLS for all (t,n), 2<=t<=n<=6, every t-subset for n<=5 in random order with injected duplicates / other-message / wrong-index / garbage / truncated / beyond-n / scaled / identity partials; BDN masks over 1..10 cosigners built by NewMask with and without own key followed by every SetBit/SetMask/Merge/Clone kind sequence of length <=4, aggregation, verification under the same mask, another mask and another message; CoSi mask operation sequences and signed/tampered collective signatures under nil/Complete/Threshold policies. distinct = distinct scenario text; non-trivial = at least one accepted verification / one partial / one mask operation"
+	rep.Rule = "scenarios over the transparent dlog pairing suite (exact values) and the 8 real (suite, signature group) combinations (verdicts, byte equalities): BLS sign/verify matrices over keys x messages x honest/tampered/garbage signatures; threshold BLS for all (t,n), 2<=t<=n<=6, every t-subset for n<=5 in random order with injected duplicates / other-message / wrong-index / garbage / truncated / beyond-n / scaled / identity partials; BDN masks over 1..10 cosigners built by NewMask with and without own key followed by every SetBit/SetMask/Merge/Clone kind sequence of length <=4, aggregation, verification under the same mask, another mask and another message; BDN sessions in which several mask objects sharing one NewMask (base mask, clones, further NewMask results over the same key slice) are reused for 6..20 interleaved SetBit/SetMask/Merge/Clone/AggregatePublicKeys/AggregateSignatures/Verify calls with every call observed; one sharing polynomial / PubPoly reused by all Recover scenarios of a (t,n), each Recover repeated in another order; after every call the values it only reads (keys, coefficients, terms, commitments, signatures, messages) are compared with their fingerprint before it; CoSi mask operation sequences and signed/tampered collective signatures under nil/Complete/Threshold policies. distinct = distinct scenario text; non-trivial = at least one accepted verification / one partial / one mask operation"
 	cf := &vh.CaseFile{Header: "From Kyber Require Import MSig.MSigSM MSig.MSigRun.", Type: "case", Runner: "mismatches"}
 	c := &ctx{rep: rep, cf: cf, search: o.Search}
 	r := vh.NewRng(o.Seed)
@@ -1422,6 +1768,17 @@ func main() {
 				own = 2
 			}
 			bdnCase(c, e, r.Fork(), 1+r.Intn(10), own, seqs[r.Intn(len(seqs))])
+		}
+	}
+	// BDN sessions: masks sharing one NewMask, reused for many aggregations
+	for _, e := range des {
+		for k := 0; k < 40*scale; k++ {
+			bdnSession(c, e, r.Fork(), 1+r.Intn(10), 6+r.Intn(14))
+		}
+	}
+	for _, e := range res {
+		for k := 0; k < 2*scale; k++ {
+			bdnSession(c, e, r.Fork(), 1+r.Intn(10), 6+r.Intn(8))
 		}
 	}
 	// CoSi
